@@ -7,6 +7,7 @@ the same `Spec/Pattern.lean` predicates the driver evaluates on the implementati
 -/
 import Reamber.Lemmas.PatternGroup
 import Reamber.Lemmas.PatternCreate
+import Reamber.Lemmas.PatternNoteLists
 import Reamber.Generated.PatternTables
 
 namespace Reamber.Pattern
@@ -55,6 +56,13 @@ theorem consts_tie :
 theorem pattern_sorted_perm (rows : List Row) : patternSpec rows (mkPattern rows) = true := by
   simp only [patternSpec, Bool.and_eq_true, List.isPerm_iff, sortedOffB_iff]
   exact ⟨isort_perm _ _, isort_sorted _⟩
+
+/-- `Pattern.from_note_lists`: the frame holds every note of every list and — when tails are requested — one
+`HoldTail` at `offset + length` per item of every list whose item class is a `Hold`; nothing else; sorted. -/
+theorem from_note_lists_spec (nls : List NoteList) (includeTails : Bool) :
+    patternSpec (expectedRows nls includeTails) (fromNoteLists nls includeTails) = true := by
+  simp only [patternSpec, Bool.and_eq_true, List.isPerm_iff, sortedOffB_iff]
+  exact ⟨fromNoteLists_perm nls includeTails, isort_sorted _⟩
 
 /-! ### grouping -/
 
@@ -178,6 +186,24 @@ theorem combos_spec (gs : List (List Row)) (n : Nat) (F : Filters) :
   · exact Or.inl rfl
   · exact Or.inr ((mem_combinations_iff gs n F s).mpr h)
 
+/-- folded output (`make_size2=True`): exactly the adjacent pairs of the allowed sequences -/
+theorem folded_spec (gs : List (List Row)) (n : Nat) (F : Filters) :
+    foldedSpec gs n F (foldSize2 (combinations gs n F)).flatten = true := by
+  have key : ∀ p, p ∈ (foldSize2 (combinations gs n F)).flatten ↔
+      p ∈ ((candidates gs n).filter (allowed gs n F)).flatMap adjPairs := by
+    intro p
+    simp only [foldSize2, List.mem_flatten, List.mem_map, List.mem_flatMap, List.mem_filter]
+    constructor
+    · rintro ⟨l, ⟨c, hc, rfl⟩, hp⟩
+      obtain ⟨s, hs, hps⟩ := List.mem_flatMap.mp hp
+      have hall := (mem_combinations_iff gs n F s).mp (List.mem_flatten.mpr ⟨c, hc, hs⟩)
+      exact ⟨s, ⟨allowed_mem_candidates gs n F s hall, hall⟩, hps⟩
+    · rintro ⟨s, ⟨_, hall⟩, hps⟩
+      obtain ⟨c, hc, hs⟩ := List.mem_flatten.mp ((mem_combinations_iff gs n F s).mpr hall)
+      exact ⟨c.flatMap adjPairs, ⟨c, hc, rfl⟩, List.mem_flatMap.mpr ⟨s, hs, hps⟩⟩
+  simp only [foldedSpec, Bool.and_eq_true, List.all_eq_true, List.contains_iff_mem]
+  exact ⟨fun p hp => (key p).mp hp, fun p hp => (key p).mpr hp⟩
+
 /-- **combo_hash_injective**: the base-`keys` positional code is injective on rows of equal length over the
 columns `0 … keys-1` -/
 theorem combo_hash_injective (keys : Int) (l1 l2 : List Int) (hlen : l1.length = l2.length)
@@ -287,6 +313,9 @@ example : (group [⟨0, 0, .hit⟩, ⟨2, 0, .hit⟩, ⟨1, 50, .hit⟩] 50 (som
 example : (combinations [[⟨0, 0, .hit⟩, ⟨1, 0, .hit⟩], [⟨1, 100, .hit⟩]] 2
     { combo := some (comboCreate [[0, 0]] 4 optRepeat true).filter }).flatten = [[⟨0, 0, .hit⟩, ⟨1, 100, .hit⟩]] := by
   decide +kernel
+
+example : fromNoteLists [⟨.hit, [(0, 0, 0), (1, 100, 0)]⟩, ⟨.osuHold, [(2, 50, 100)]⟩, ⟨.hold, []⟩] true =
+    [⟨0, 0, .hit⟩, ⟨2, 50, .osuHold⟩, ⟨1, 100, .hit⟩, ⟨2, 150, .holdTail⟩] := by decide +kernel
 
 example : inRange 4 [0, 3] = true ∧ inRange 4 [1, 2] = true := by decide
 example : ∃ d : Int, [1, 3] = [0, 2].map (· + d) ∧ ∀ x ∈ [1, 3], 0 ≤ x ∧ x < (4 : Int) := ⟨1, by decide, by decide⟩
